@@ -43,8 +43,12 @@ func normStarts(ts []Tok) (kinds []string, starts []int) {
 
 func coreParse(src string, lang syntax.LangVariant, starts []int) CoreRes {
 	var err error
+	name := "" // the posix variant goes through Parse with a file name, the bash variant without
+	if lang == syntax.LangPOSIX {
+		name = "core.sh"
+	}
 	if p, pm := hx.Try(func() {
-		_, err = syntax.NewParser(syntax.Variant(lang)).Parse(strings.NewReader(src), "")
+		_, err = syntax.NewParser(syntax.Variant(lang)).Parse(strings.NewReader(src), name)
 	}); p {
 		return CoreRes{Msg: "PANIC: " + pm, Kind: "panic"}
 	}
